@@ -360,6 +360,8 @@ theorem divisions_total {α : Type} (key : α → Nat) (parts : List (List α)) 
   obtain ⟨out, h1, _, _⟩ := divisions_walk_correct (key := key) ⟨ht, hsorted, hva⟩ hvb hg
   exact ⟨out, h1⟩
 
+example : ValidDivs [0, 3, 3] ∧ ValidDivs [0, 2, 4, 5] ∧ ValidDivs [2, 2] := by
+  refine ⟨⟨by decide, by decide, by decide⟩, ⟨by decide, by decide, by decide⟩, ⟨by decide, by decide, by decide⟩⟩
 example : dlGuards [0, 3, 3, 5] [0, 2, 4, 5] false = some (0, 5, 5, 4) := by decide
 example : dlGuards [5, 10] [0, 2, 10, 12] true = some (0, 10, 12, 10) := by decide
 example : dlGuards [5, 10] [6, 10] true = none := by decide
